@@ -34,6 +34,7 @@ def oracleLineC15 (toks out : List String) : String :=
   match P.run pC15 toks, out with
   | some c, _ :: _ =>
     if out == ["panic"] then "fail validator-crashed" else
+    if out.any (·.startsWith "WEBHOOK=") then "fail admission-handler-judged-another-stored-object-than-the-request's-old-object" else
     let admitted := out.contains "admitted=1"
     let specEq := decide (c.new = c.old.spec)
     let allowed := c.createOk && (specEq || (c.new.rest == c.old.spec.rest && (!c.old.completed || c.old.restartable) &&
